@@ -1047,7 +1047,8 @@ void Adaptation::Icap::ModXact::prepPartialBodyEchoing(uint64_t pos)
 void Adaptation::Icap::ModXact::handleUnknownScode()
 {
     stopParsing(false);
-    stopBackup();
+    // Do not stopBackup() here: callException() may still bypass this failure
+    // (bypass=on) and then needs the virgin body backup to echo the message.
     // TODO: mark connection as "bad"
 
     // Terminate the transaction; we do not know how to handle this response.
